@@ -45,7 +45,7 @@ def rows_of(out):
 
 
 def panel_for(entry, n, seed):
-    ncol = 2 if entry["name"] == "column_ensemble" else 1
+    ncol = 2 if entry["name"].startswith("column_ensemble") else 1
     noisy = entry["kind"] in ("classifier", "regressor")
     X, y = E.make_panel(n, ncol, entry.get("tp", 12), seed, noise=2.0 if noisy else 0.5)
     return X, y
@@ -61,7 +61,7 @@ class Fitted:
     def get(self, fitc):
         if fitc not in self.cache:
             # 9 training instances: deliberately different from the number of time points
-            Xtr, ytr = E.make_panel(9, 2 if self.entry["name"] == "column_ensemble" else 1, self.entry.get("tp", 12),
+            Xtr, ytr = E.make_panel(9, 2 if self.entry["name"].startswith("column_ensemble") else 1, self.entry.get("tp", 12),
                                     self.seed + 500,
                                     noise=2.0 if self.entry["kind"] in ("classifier", "regressor") else 0.5)
             est = self.entry["factory"]()
